@@ -30,6 +30,7 @@ type JS struct {
 	Addl     *JS
 	Ref      string
 	Fmt      string // an integer format other than int32/int64 (the Go type stays int)
+	XNull    bool   // carries the Swagger-2 vendor extension x-nullable: true (means nothing in OpenAPI 3)
 	Members  []*JS
 	Disc     string
 	Mapping  [][2]string // discriminator value -> component name
@@ -49,6 +50,9 @@ var primKinds = []string{"str", "int", "int32", "int64", "num", "f32", "bool", "
 
 func (s *JS) toSpec() map[string]any {
 	m := map[string]any{}
+	if s.XNull {
+		m["x-nullable"] = true
+	}
 	switch s.Kind {
 	case "str":
 		m["type"] = "string"
@@ -153,6 +157,7 @@ func pickPrim(rng *PRNG) *JS {
 	if s.Kind == "int" && rng.Chance(1, 2) {
 		s.Fmt = Pick(rng, []string{"uint8", "int8", "int16", "uint16", "uint32", "uint64"})
 	}
+	s.XNull = rng.Chance(1, 8)
 	return s
 }
 
@@ -713,7 +718,7 @@ func (e *jsonEnv) genDoc(rng *PRNG, s *JS, depth int) any {
 	case "num":
 		return json.Number(Pick(rng, []string{"0", "1.5", "-2.25", "1e21", "3", "1E3", "0.5e-3"}))
 	case "f32":
-		return json.Number(Pick(rng, []string{"0", "1.5", "3", "0.25"}))
+		return json.Number(Pick(rng, []string{"0", "1.5", "3", "0.25", "0.1", "2.7", "-3.3", "16777217"}))
 	case "bool":
 		return rng.Bool()
 	case "time":
@@ -908,6 +913,27 @@ func (e *jsonEnv) docCasesFor(rng *PRNG, s *JS, n int) []docCase {
 				bs, _ := json.Marshal(c)
 				out = append(out, docCase{"null:" + p.Name, string(bs)})
 			}
+			if ps := e.resolve(p.S); m[p.Name] != nil && rng.Chance(1, 2) {
+				// a number with an integral value that is not written as an integer literal, where an
+				// integer (or a list of integers) is declared: however it is read, a property given by
+				// reference and its inline copy must read it alike
+				var v any
+				isInt := func(k string) bool { return k == "int" || k == "int32" || k == "int64" }
+				if isInt(ps.Kind) {
+					v = json.Number(Pick(rng, []string{"1.0", "2e0", "4.00"}))
+				} else if ps.Kind == "arr" && isInt(e.resolve(ps.Items).Kind) {
+					v = []any{json.Number("1.0"), json.Number("2")}
+				}
+				if v != nil {
+					c := map[string]any{}
+					for k, x := range m {
+						c[k] = x
+					}
+					c[p.Name] = v
+					bs, _ := json.Marshal(c)
+					out = append(out, docCase{"intfloat:" + p.Name, string(bs)})
+				}
+			}
 			if m[p.Name] != nil && e.resolve(p.S).Kind != "any" && rng.Chance(1, 2) {
 				c := map[string]any{}
 				for k, v := range m {
@@ -997,14 +1023,23 @@ func facetJSON(args []string) error {
 			s := env.comps[tn]
 			if s.Kind == "obj" {
 				// the Go type itself: a required property must not be omittable, an optional one must be
-				want := ""
+				// ... and a property is nullable in Go exactly when its schema says so (`*`: not compared, the
+				// representation of nullable arrays / objects / references is not part of this check)
+				var toks []string
 				for _, pr := range s.Props {
+					t := "O"
 					if pr.Req {
-						want += "R"
-					} else {
-						want += "O"
+						t = "R"
 					}
+					switch rs := env.resolve(pr.S); {
+					case pr.S.Kind == "ref" || rs.Kind == "arr" || rs.Kind == "obj" || rs.Kind == "allOf" || rs.Kind == "oneOf" || rs.Kind == "any":
+						t += "*"
+					case rs.Nullable:
+						t += "n"
+					}
+					toks = append(toks, t)
 				}
+				want := strings.Join(toks, ",")
 				a, _ := json.Marshal(map[string]any{"type": tn})
 				id := fmt.Sprintf("%s#h%s", r.Name, tn)
 				cases = append(cases, rt.Case{Op: "jsonshape", Pkg: r.Name, ID: id, Args: a})
